@@ -314,9 +314,9 @@ func TestVerifC06(t *testing.T) {
 		}
 		plans := []plan{{3, c06Grid}}
 		if !r.Quick() {
-			// all histories of <=4 events on the 9-point grid and of <=5 events on
+			// all histories of <=5 events on the 9-point grid and of <=6 events on
 			// the 5-point grid around the 3 s boundary
-			plans = []plan{{4, c06Grid}, {5, c06GridThorough}}
+			plans = []plan{{5, c06Grid}, {6, c06GridThorough}}
 		}
 		for _, pl := range plans {
 			depth, grid := pl.depth, pl.grid
@@ -344,7 +344,7 @@ func TestVerifC06(t *testing.T) {
 	// Random long bursty histories, both tick regimes, with and without a
 	// re-initialisation inside the burst.
 	rr := r.Rand("c06", "random")
-	n := r.Pick(500, 20000)
+	n := r.Pick(500, 100000)
 	if r.Part != "det" {
 		n = r.Pick(300, 2000)
 	}
